@@ -3,8 +3,10 @@ C09: decision logic of the STARK verifier model (`P2/Model/Stark.lean`) and the 
 "the trace satisfies the constraints" (`P2/Model/Air.lean`).
 -/
 import P2.Model.Stark
+import P2.Lemmas.Stark
+import P2.Lemmas.StarkNoPanic
 namespace P2.Props.C09
-open P2 P2.Air P2.Stark
+open P2 P2.Air P2.Stark P2.Lemmas.Stark
 open P2.Fri (Verdict firstBad)
 
 section consumer
@@ -92,18 +94,6 @@ theorem wrong_public_input_count_rejected (a : Air) (c : Config) (pp : ProofWith
     (h : pp.publicInputs.length ≠ a.pis) : verify a c pp pad = .reject "shape" := by
   unfold verify; simp [h]
 
-theorem firstBad_accept_iff (vs : List Verdict) : firstBad vs = .accept ↔ ∀ v ∈ vs, v = .accept := by
-  induction vs with
-  | nil => simp [firstBad]
-  | cons w ws ih =>
-    cases w with
-    | accept => simp [firstBad, ih]
-    | reject s => simp [firstBad]
-    | panic s => simp [firstBad]
-
-theorem ensure_accept_iff (b : Bool) : ensure b = .accept ↔ b = true := by
-  cases b <;> simp [ensure]
-
 /-- **F-C09-2 as repaired**: a proof that omits the quotient commitment of an AIR that has quotient
 polynomials fails shape validation (whatever else it contains), and so does one that carries a
 quotient commitment for an AIR without quotient polynomials. -/
@@ -144,5 +134,380 @@ def fibAir : Air :=
 
 example : fibAir.satisfied #[#[0, 1], #[1, 1], #[1, 2], #[2, 3]] #[0, 1, 3] = true := by decide
 example : fibAir.satisfied #[#[0, 1], #[1, 1], #[1, 3], #[2, 3]] #[0, 1, 3] = false := by decide
+
+/-! ## (b) what an accepted shape validation establishes -/
+
+/-- **Shape validation, stated outright** (`nh`, `nz`: the numbers of CTL helper columns and CTL Z
+polynomials the caller expects; `0`, `0` for a single table). `validate_proof_shape` accepts iff
+* the number of public inputs is `a.pis`; `fri_params` and `num_lookup_helper_columns` are defined;
+* the trace cap has `2^cap_height` entries;
+* the quotient cap is present iff the AIR has quotient polynomials (F-C09-2 repaired), and then has
+  `2^cap_height` entries;
+* `ctl_zs_first` is present iff the AIR requires CTLs (F-C09-1 repaired);
+* local and next values have `a.cols` entries;
+* the quotient OPENINGS are present iff the AIR has quotient polynomials (repair of the `chunks(0)`
+  panic found with this model), and then there are `num_quotient_polys` of them;
+* the auxiliary cap / openings are present iff the AIR has lookups or CTLs, with
+  `2^cap_height` resp. `nlc + nh + nz` entries (and `ctl_zs_first` has `nz`), else all absent. -/
+theorem validateShape_accept_iff (a : Air) (c : Config) (pp : ProofWithPis) (db nh nz : Nat) :
+    validateShape a c pp db nh nz = .accept ↔
+      pp.publicInputs.length = a.pis ∧
+      (∃ fp, c.friParams db = some fp) ∧
+      ∃ nlc, numLookupHelperColumns a c = some nlc ∧
+        pp.proof.traceCap.length = 2 ^ c.fri.capHeight ∧
+        pp.proof.quotientCap.isSome = decide (0 < numQuotientPolys a c) ∧
+        (∀ q, pp.proof.quotientCap = some q → q.length = 2 ^ c.fri.capHeight) ∧
+        pp.proof.openings.ctlZsFirst.isSome = a.requiresCtls ∧
+        pp.proof.openings.localValues.length = a.cols ∧
+        pp.proof.openings.nextValues.length = a.cols ∧
+        pp.proof.openings.quotientPolys.isSome = decide (0 < numQuotientPolys a c) ∧
+        (pp.proof.openings.quotientPolys.getD []).length = numQuotientPolys a c ∧
+        (if (a.usesLookups || a.requiresCtls) = true then
+          ∃ cap aux auxNext, pp.proof.auxCap = some cap ∧ pp.proof.openings.auxPolys = some aux ∧
+            pp.proof.openings.auxPolysNext = some auxNext ∧ cap.length = 2 ^ c.fri.capHeight ∧
+            aux.length = nlc + nh + nz ∧ auxNext.length = nlc + nh + nz ∧
+            ∀ zs, pp.proof.openings.ctlZsFirst = some zs → zs.length = nz
+        else pp.proof.auxCap = none ∧ pp.proof.openings.auxPolys = none ∧
+          pp.proof.openings.auxPolysNext = none) :=
+  Lemmas.Stark.validateShape_accept_iff a c pp db nh nz
+
+/-- the quotient cap is present exactly when there are quotient polynomials -/
+theorem shape_quotientCap_iff (a : Air) (c : Config) (pp : ProofWithPis) (db nh nz : Nat)
+    (h : validateShape a c pp db nh nz = .accept) :
+    pp.proof.quotientCap.isSome = true ↔ 0 < numQuotientPolys a c := by
+  have := ((validateShape_accept_iff a c pp db nh nz).1 h).2.2
+  obtain ⟨_, _, _, h2, _⟩ := this
+  rw [h2]; simp
+
+/-- the quotient openings are present exactly when there are quotient polynomials -/
+theorem shape_quotientPolys_iff (a : Air) (c : Config) (pp : ProofWithPis) (db nh nz : Nat)
+    (h : validateShape a c pp db nh nz = .accept) :
+    pp.proof.openings.quotientPolys.isSome = true ↔ 0 < numQuotientPolys a c := by
+  have := ((validateShape_accept_iff a c pp db nh nz).1 h).2.2
+  obtain ⟨_, _, _, _, _, _, _, _, h2, _⟩ := this
+  rw [h2]; simp
+
+/-- **`chunks(0)` is unreachable after shape validation** (`num_quotient_polys =
+quotient_degree_factor · num_challenges`): if quotient openings are present, the chunk size
+`quotient_degree_factor` handed to `chunks` is non-zero -/
+theorem chunks0_unreachable_after_shape (a : Air) (c : Config) (pp : ProofWithPis) (db nh nz : Nat)
+    (h : validateShape a c pp db nh nz = .accept) (hq : pp.proof.openings.quotientPolys.isSome = true) :
+    a.quotientDegreeFactor ≠ 0 :=
+  qdf_ne_zero_of_shape a c pp db nh nz h hq
+
+/-- shape validation never panics once `fri_params` and `num_lookup_helper_columns` are defined
+(both depend on the AIR and the configuration only, not on the proof) -/
+theorem validateShape_no_panic (a : Air) (c : Config) (pp : ProofWithPis) (db nh nz : Nat) (s : String)
+    (hf : (c.friParams db).isSome) (hn : (numLookupHelperColumns a c).isSome) :
+    validateShape a c pp db nh nz ≠ .panic s := by
+  unfold validateShape
+  obtain ⟨fp, hf⟩ := Option.isSome_iff_exists.mp hf
+  obtain ⟨nlc, hn⟩ := Option.isSome_iff_exists.mp hn
+  simp only [hf, hn]
+  split
+  · simp
+  · apply firstBad_ensure_no_panic
+    intro v hv t
+    simp only [List.mem_append, List.mem_cons, List.not_mem_nil, or_false] at hv
+    have he : ∀ b, ensure b ≠ .panic t := fun b => by cases b <;> simp [ensure]
+    rcases hv with (rfl | rfl | rfl | rfl | rfl | rfl) | hv
+    · exact he _
+    · split
+      · simp only [quotientCapMustMatch, if_true]; exact he _
+      · split
+        · simp
+        · exact he _
+    · simp only [ctlZsFirstMustMatch, if_true]; exact he _
+    · exact he _
+    · exact he _
+    · split <;> exact he _
+    · unfold checkLookupOptions at hv
+      simp only [] at hv
+      split at hv
+      · split at hv
+        · simp only [List.mem_cons, List.not_mem_nil, or_false] at hv
+          rcases hv with rfl | rfl | rfl | rfl
+          · split
+            · exact he _
+            · simp
+          · exact he _
+          · exact he _
+          · exact he _
+        · simp only [List.mem_singleton] at hv; subst hv; simp
+      · simp only [List.mem_cons, List.not_mem_nil, or_false] at hv
+        rcases hv with rfl | rfl | rfl <;> exact he _
+
+/-! ## (a) acceptance is the conjunction of every check -/
+
+/-- **`verify_stark_proof_with_challenges` accepts iff** `recover_degree_bits` succeeds with some
+`db`, shape validation accepts, and (`AfterShape`, spelled out in `verify_accept_imp` below) the
+consumer can be set up at ζ, `eval_vanishing_poly` returns, *the quotient identity
+`vanishing[i] = Z_H(ζ)·Σ_j chunk_i[j]·ζ^(n·j)` holds for every chunk of quotient openings*, the
+commit-phase cap count and arities fit, and the FRI verifier accepts the openings against
+`[trace cap] ++ aux cap ++ quotient cap`. -/
+theorem verifyWithChallenges_accept_iff (a : Air) (c : Config) (pp : ProofWithPis) (ch : Challenges)
+    (ctlVars : Option (List CtlVars)) :
+    verifyWithChallenges a c pp ch ctlVars = .accept ↔
+      ∃ db, recoverDegreeBits pp.proof c = .ok db ∧
+        validateShape a c pp db (ctlHelpersCount ctlVars) (ctlZsCount ctlVars) = .accept ∧
+        ∃ s nlc fp lv vanishing,
+          consumerAt ch.alphas db ch.zeta = .ok s ∧
+          numLookupHelperColumns a c = some nlc ∧ c.friParams db = some fp ∧
+          lookupVarsOf a ch pp.proof.openings nlc = .ok lv ∧
+          evalVanishingPoly a pp.proof.openings.localValues pp.proof.openings.nextValues pp.publicInputs lv
+            ctlVars s = some vanishing ∧
+          (∀ (i : Nat) (chunk : List GL2), (quotientChunks a pp.proof.openings)[i]? = some chunk →
+            vanishing[i]? = some ((FOps.pow ch.zeta (2 ^ db) - FOps.one) *
+              Fri.reduceExt chunk (FOps.pow ch.zeta (2 ^ db)))) ∧
+          pp.proof.openingProof.commitCaps.length = fp.arityBits.length ∧ fp.totalArities ≤ db ∧
+          Fri.verify (friInstance a c ch.zeta (GL.primitiveRoot db) nlc (ctlHelpersCount ctlVars)
+              (ctlZsCount ctlVars)) pp.proof.openings.toFriOpenings ch.fri (friCaps pp.proof)
+            pp.proof.openingProof fp = .accept :=
+  Lemmas.Stark.verifyWithChallenges_accept_iff a c pp ch ctlVars
+
+/-- **`verify_stark_proof` accepts iff** the public-input count is right, the Fiat–Shamir
+challenges can be recomputed *from the proof and the public inputs* (`getChallenges`), and
+`verify_stark_proof_with_challenges` accepts with exactly those challenges. -/
+theorem verify_accept_iff (a : Air) (c : Config) (pp : ProofWithPis) (pad : Option PadParams) :
+    Stark.verify a c pp pad = .accept ↔
+      pp.publicInputs.length = a.pis ∧
+      ∃ ch, getChallenges a c pp pad = .ok ch ∧ verifyWithChallenges a c pp ch = .accept := by
+  unfold Stark.verify
+  by_cases hp : pp.publicInputs.length = a.pis
+  · simp only [hp, ne_eq, not_true_eq_false, if_false, true_and]
+    cases hc : getChallenges a c pp pad with
+    | error e => simp
+    | ok ch => simp
+  · simp [hp]
+
+/-- the facts an accepted single-table proof satisfies, all at once -/
+theorem verify_accept_imp (a : Air) (c : Config) (pp : ProofWithPis) (pad : Option PadParams)
+    (h : Stark.verify a c pp pad = .accept) :
+    pp.publicInputs.length = a.pis ∧
+    ∃ ch db s nlc fp lv vanishing,
+      getChallenges a c pp pad = .ok ch ∧
+      recoverDegreeBits pp.proof c = .ok db ∧
+      validateShape a c pp db 0 0 = .accept ∧
+      consumerAt ch.alphas db ch.zeta = .ok s ∧
+      numLookupHelperColumns a c = some nlc ∧ c.friParams db = some fp ∧
+      lookupVarsOf a ch pp.proof.openings nlc = .ok lv ∧
+      evalVanishingPoly a pp.proof.openings.localValues pp.proof.openings.nextValues pp.publicInputs lv
+        none s = some vanishing ∧
+      (∀ (i : Nat) (chunk : List GL2), (quotientChunks a pp.proof.openings)[i]? = some chunk →
+        vanishing[i]? = some ((FOps.pow ch.zeta (2 ^ db) - FOps.one) *
+          Fri.reduceExt chunk (FOps.pow ch.zeta (2 ^ db)))) ∧
+      Fri.verify (friInstance a c ch.zeta (GL.primitiveRoot db) nlc 0 0) pp.proof.openings.toFriOpenings
+        ch.fri (friCaps pp.proof) pp.proof.openingProof fp = .accept := by
+  obtain ⟨hp, ch, hc, hv⟩ := (verify_accept_iff a c pp pad).1 h
+  obtain ⟨db, hdb, hs, s, nlc, fp, lv, van, h1, h2, h3, h4, h5, h7, _, _, h10⟩ :=
+    (verifyWithChallenges_accept_iff a c pp ch none).1 hv
+  exact ⟨hp, ch, db, s, nlc, fp, lv, van, hc, hdb, hs, h1, h2, h3, h4, h5, h7, h10⟩
+
+/-- every chunk of quotient openings is checked: with `num_quotient_polys = qdf·num_challenges`
+openings there are `num_challenges` chunks -/
+theorem quotientChunks_length (a : Air) (c : Config) (pp : ProofWithPis) (db nh nz : Nat)
+    (h : validateShape a c pp db nh nz = .accept) (hq : 0 < a.quotientDegreeFactor) :
+    (quotientChunks a pp.proof.openings).length = c.numChallenges := by
+  obtain ⟨_, _, _, _, _, _, _, _, _, _, _, h8, _⟩ := (validateShape_accept_iff a c pp db nh nz).1 h
+  unfold quotientChunks
+  cases hqp : pp.proof.openings.quotientPolys with
+  | none =>
+    simp only [hqp, Option.getD_none, List.length_nil, numQuotientPolys] at h8 ⊢
+    rcases Nat.mul_eq_zero.mp h8.symm with h0 | h0
+    · omega
+    · exact h0.symm
+  | some q =>
+    simp only [hqp, Option.getD_some, numQuotientPolys] at h8 ⊢
+    simp only [chunksOf, List.length_map, List.length_range, h8]
+    rw [Nat.add_sub_assoc hq, Nat.mul_add_div hq]
+    rw [Nat.div_eq_of_lt (show a.quotientDegreeFactor - Nat.succ 0 < a.quotientDegreeFactor by omega)]
+    rfl
+
+/-! ### non-vacuity: a concrete accepted proof (one row, `local[0] = public[0]`) -/
+
+def tinyAir : Air :=
+  { cols := 1, pis := 1, degree := 1, requiresCtls := false, lookups := [],
+    constraints := [(Kind.all, Expr.sub (.loc 0) (.pub 0))] }
+def tinyCfg : Config := ⟨0, 1, ⟨0, 0, 0, .fixed [], 1⟩⟩
+def tinyOpenings : OpeningSet := ⟨[⟨5,0⟩], [⟨5,0⟩], none, none, none, some [⟨2,0⟩]⟩
+def tinyFri : Fri.Proof := ⟨[], [⟨[([0],[]),([0],[])], []⟩], [⟨0,0⟩], 0⟩
+def tinyProof : ProofWithPis := ⟨⟨[[0,0,0,0]], none, some [[0,0,0,0]], tinyOpenings, tinyFri⟩, [3]⟩
+def tinyCh : Stark.Challenges := ⟨none, [1], ⟨2,0⟩, ⟨⟨1,0⟩, [], 0, []⟩⟩
+
+/-- with challenges that select no query the (vacuous) FRI check accepts; the quotient identity
+`5 − 3 = (ζ − 1)·2` at `ζ = 2` is checked -/
+example : verifyWithChallenges tinyAir tinyCfg tinyProof tinyCh none = .accept := by decide +kernel
+/-- … and a wrong quotient opening is rejected at the identity -/
+example : verifyWithChallenges tinyAir tinyCfg
+    { tinyProof with proof := { tinyProof.proof with openings := { tinyOpenings with quotientPolys := some [⟨3,0⟩] } } }
+    tinyCh none = .reject "identity" := by decide +kernel
+example : validateShape tinyAir tinyCfg tinyProof 0 0 0 = .accept := by decide +kernel
+example : (quotientChunks tinyAir tinyProof.proof.openings).length = tinyCfg.numChallenges := by decide +kernel
+/-- dropping the quotient cap is caught by shape validation (F-C09-2 repaired) -/
+example : validateShape tinyAir tinyCfg
+    { tinyProof with proof := { tinyProof.proof with quotientCap := none } } 0 0 0 = .reject "shape" := by
+  decide +kernel
+example : Stark.verify tinyAir tinyCfg { tinyProof with publicInputs := [] } none = .reject "shape" :=
+  wrong_public_input_count_rejected _ _ _ _ (by decide)
+
+/-! ## (h) panics: where they are, and where they cannot be
+
+The model has panic paths *before* shape validation (known finding F-C18-3): `recover_degree_bits`
+indexes `query_round_proofs[0].initial_trees_proof.evals_proofs[0]` of an unvalidated proof, and
+`get_challenges` runs `compute_eval_vanishing_poly` (inverse of `n·(ζ′−1)·n·(g·ζ′−1)`). After a
+successful `recover_degree_bits` and challenge generation, an AIR without lookups/CTLs cannot panic.
+(`chunks(0)`, found with this model for `constraint_degree = 0`, is excluded by shape validation now.) -/
+
+/-- `recover_degree_bits` fails exactly when there is no query round, or the first query round
+has no initial-tree opening -/
+theorem recoverDegreeBits_error_iff (p : Proof) (c : Config) (e : String) :
+    recoverDegreeBits p c = .error e ↔
+      (p.openingProof.queries = [] ∧ e = "query_round_proofs[0]") ∨
+      (∃ q rest, p.openingProof.queries = q :: rest ∧ q.initial = [] ∧ e = "evals_proofs[0]") := by
+  unfold recoverDegreeBits
+  cases hq : p.openingProof.queries with
+  | nil => simp [eq_comm]
+  | cons q rest =>
+    cases hi : q.initial with
+    | nil => simp [hi, eq_comm]
+    | cons x t => obtain ⟨l, sib⟩ := x; simp [hi]
+
+/-- … and otherwise returns `cap_height + (length of the first Merkle path) − rate_bits`, wrapping -/
+theorem recoverDegreeBits_ok_iff (p : Proof) (c : Config) (db : Nat) :
+    recoverDegreeBits p c = .ok db ↔
+      ∃ q rest leaf sib t, p.openingProof.queries = q :: rest ∧ q.initial = (leaf, sib) :: t ∧
+        db = (c.fri.capHeight + sib.length + usizeModulus - c.fri.rateBits) % usizeModulus := by
+  unfold recoverDegreeBits
+  cases hq : p.openingProof.queries with
+  | nil => simp
+  | cons q rest =>
+    cases hi : q.initial with
+    | nil => simp [hi]
+    | cons x t =>
+      obtain ⟨l, sib⟩ := x
+      simp only [hi, Except.ok.injEq]
+      constructor
+      · intro h; exact ⟨q, rest, l, sib, t, rfl, hi, h.symm⟩
+      · rintro ⟨q', rest', l', sib', t', h1, h2, h3⟩
+        cases h1; rw [hi] at h2; cases h2; exact h3.symm
+
+/-- **F-C18-3 in the model**: a proof without query rounds (or with an empty first opening) makes
+`verify_stark_proof` panic — before any shape validation — whatever else it contains -/
+theorem verify_panics_of_recoverDegreeBits_error (a : Air) (c : Config) (pp : ProofWithPis)
+    (pad : Option PadParams) (e : String) (hp : pp.publicInputs.length = a.pis)
+    (h : recoverDegreeBits pp.proof c = .error e) : Stark.verify a c pp pad = .panic e := by
+  unfold Stark.verify getChallenges getChallengesFrom
+  simp [hp, h, bind, Except.bind]
+
+/-- `verify_stark_proof_with_challenges` panics in the same way -/
+theorem verifyWithChallenges_panics_of_recoverDegreeBits_error (a : Air) (c : Config) (pp : ProofWithPis)
+    (ch : Challenges) (cv : Option (List CtlVars)) (e : String)
+    (h : recoverDegreeBits pp.proof c = .error e) : verifyWithChallenges a c pp ch cv = .panic e := by
+  unfold verifyWithChallenges
+  simp [h]
+
+/-- when the consumer cannot be set up: `log_n > 32` or a zero denominator of `L_0`/`L_last` -/
+theorem consumerAt_error_iff (alphas : List GL) (db : Nat) (x : GL2) :
+    (∃ e, consumerAt alphas db x = .error e) ↔
+      db > 32 ∨ ((GL2.ofBase (GL.ofNat (2 ^ db)) * (x - FOps.one)) *
+        (GL2.ofBase (GL.ofNat (2 ^ db)) * (GL2.scalarMul x (GL.primitiveRoot db) - FOps.one)) == FOps.zero) = true := by
+  unfold consumerAt evalL0LLast
+  by_cases h1 : db > 32
+  · simp [h1, bind, Except.bind]
+  · simp only [h1, if_false, false_or]
+    split <;> simp_all [bind, Except.bind, pure, Except.pure]
+
+/-- **No panic after `recover_degree_bits`** (AIRs without lookups and cross-table lookups, the
+single-table verifier). `_partial`: MISSING is the case of AIRs with lookups (`hl`) or CTLs (`hctl`,
+`ctlVars = some _`): it needs `evalLookups` / `evalCtlChecks` (loops over `numHelperColumns`
+slices of the auxiliary openings, `todo!()` for chunks longer than 2) shown to return `some` from
+the shape facts, and the accumulator count to be preserved through them; the `"unwrap"` of
+`lookup_challenge_set` also has to be tied to `get_challenges`. Everything else (shape validation,
+quotient identity indices, `chunks(0)`, FRI) is covered for all AIRs by the lemmas used here.
+Hypotheses — all on verifier-side data:
+* `hdb`: `recover_degree_bits` returned `db`; `hfp`: `fri_params(db)` is defined (configuration);
+* `hcons`: the consumer can be set up at ζ (`db ≤ 32`, ζ ∉ {1, g⁻¹} — `consumerAt_error_iff`);
+* `hal`, `hbetas`, `hidx`: the challenges have the shapes `get_challenges` produces
+  (`getChallenges_shapes`).
+Nothing is assumed about the proof (in particular `constraint_degree = 0` is allowed: `chunks(0)`
+is excluded by shape validation since its repair). -/
+theorem verifyWithChallenges_never_panics_partial (a : Air) (c : Config) (pp : ProofWithPis) (ch : Challenges)
+    (db : Nat) (fp : Fri.FriParams)
+    (hl : a.lookups = []) (hctl : a.requiresCtls = false)
+    (hdb : recoverDegreeBits pp.proof c = .ok db) (hfp : c.friParams db = some fp)
+    (hcons : ∃ s, consumerAt ch.alphas db ch.zeta = .ok s)
+    (hal : ch.alphas.length = c.numChallenges)
+    (hbetas : ch.fri.betas.length = pp.proof.openingProof.commitCaps.length)
+    (hidx : ∀ xi ∈ ch.fri.queryIndices, xi < 2 ^ (db + c.fri.rateBits)) :
+    ∀ t, verifyWithChallenges a c pp ch none ≠ .panic t :=
+  Lemmas.StarkNoPanic.verifyWithChallenges_no_panic a c pp ch db fp hl hctl hdb hfp hcons hal hbetas hidx
+
+/-- the challenges `get_challenges` returns have the shapes the theorem above asks for -/
+theorem getChallenges_shapes (a : Air) (c : Config) (pp : ProofWithPis) (pad : Option PadParams)
+    (ch : Challenges) (h : getChallenges a c pp pad = .ok ch) :
+    ∃ db, recoverDegreeBits pp.proof c = .ok db ∧ ch.alphas.length = c.numChallenges ∧
+      ch.fri.betas.length = pp.proof.openingProof.commitCaps.length ∧
+      ∀ xi ∈ ch.fri.queryIndices, xi < 2 ^ ((db + c.fri.rateBits) % 64) :=
+  Lemmas.StarkNoPanic.getChallengesFrom_shapes _ a c pp pad none none false ch h
+
+/-- **`verify_stark_proof` never panics once `get_challenges` has returned** (no lookups/CTLs):
+the only panics of the single-table verifier are those of `get_challenges` (which include
+`recover_degree_bits`, F-C18-3) and the set-up of the consumer at ζ. `_partial`: MISSING are AIRs
+with lookups/CTLs (see `verifyWithChallenges_never_panics_partial`) and a characterisation of when
+`get_challenges` itself returns. -/
+theorem verify_never_panics_partial (a : Air) (c : Config) (pp : ProofWithPis) (pad : Option PadParams)
+    (ch : Challenges) (db : Nat) (fp : Fri.FriParams)
+    (hl : a.lookups = []) (hctl : a.requiresCtls = false)
+    (hch : getChallenges a c pp pad = .ok ch)
+    (hdb : recoverDegreeBits pp.proof c = .ok db) (hfp : c.friParams db = some fp)
+    (hsmall : db + c.fri.rateBits < 64)
+    (hcons : ∃ s, consumerAt ch.alphas db ch.zeta = .ok s) :
+    ∀ t, Stark.verify a c pp pad ≠ .panic t := by
+  intro t
+  unfold Stark.verify
+  split
+  · simp
+  · simp only [hch]
+    obtain ⟨db', hdb', hal, hb, hi⟩ := getChallenges_shapes a c pp pad ch hch
+    rw [hdb] at hdb'; cases hdb'
+    rw [Nat.mod_eq_of_lt hsmall] at hi
+    exact verifyWithChallenges_never_panics_partial a c pp ch db fp hl hctl hdb hfp hcons hal hb hi t
+
+/-! ### witnesses -/
+
+/-- F-C18-3: no query round -/
+example : Stark.verify tinyAir tinyCfg
+    { tinyProof with proof := { tinyProof.proof with openingProof := { tinyFri with queries := [] } } } none
+    = .panic "query_round_proofs[0]" :=
+  verify_panics_of_recoverDegreeBits_error _ _ _ _ _ (by decide) rfl
+/-- F-C18-3: a query round without initial-tree openings -/
+example : Stark.verify tinyAir tinyCfg
+    { tinyProof with proof := { tinyProof.proof with openingProof := { tinyFri with queries := [⟨[], []⟩] } } } none
+    = .panic "evals_proofs[0]" :=
+  verify_panics_of_recoverDegreeBits_error _ _ _ _ _ (by decide) rfl
+/-- ζ = 1 makes `eval_l_0_and_l_last` invert zero -/
+example : verifyWithChallenges tinyAir tinyCfg tinyProof { tinyCh with zeta := ⟨1, 0⟩ } none
+    = .panic "batch_multiplicative_inverse of zero" := by decide +kernel
+def tinyProof0 : ProofWithPis :=
+  ⟨⟨[[0,0,0,0]], none, none, { tinyOpenings with quotientPolys := some [] }, { tinyFri with queries := [⟨[([0], [])], []⟩] }⟩, [3]⟩
+/-- the former `chunks(0)` witness (`constraint_degree = 0`, `quotient_polys = Some([])`, no quotient
+cap): since the repair it is rejected by shape validation -/
+example : verifyWithChallenges { tinyAir with degree := 0 } tinyCfg tinyProof0 tinyCh none
+    = .reject "shape" := by decide +kernel
+/-- … and the honest shape for that AIR (no quotient openings at all) passes shape validation -/
+example : validateShape { tinyAir with degree := 0 } tinyCfg
+    { tinyProof0 with proof := { tinyProof0.proof with openings := { tinyOpenings with quotientPolys := none } } }
+    0 0 0 = .accept := by decide +kernel
+
+theorem tiny_consumer : ∃ s, consumerAt tinyCh.alphas 0 tinyCh.zeta = .ok s := by
+  have h : (match consumerAt tinyCh.alphas 0 tinyCh.zeta with | .ok _ => true | .error _ => false) = true := by
+    decide +kernel
+  split at h
+  · exact ⟨_, ‹_›⟩
+  · cases h
+/-- non-vacuity of `verifyWithChallenges_never_panics_partial` -/
+example : ∀ t, verifyWithChallenges tinyAir tinyCfg tinyProof tinyCh none ≠ .panic t :=
+  verifyWithChallenges_never_panics_partial tinyAir tinyCfg tinyProof tinyCh 0 ⟨tinyCfg.fri, false, 0, []⟩ rfl rfl
+    rfl rfl tiny_consumer (by decide) (by decide) (by decide)
 
 end P2.Props.C09
